@@ -117,7 +117,7 @@ fn cmp_dt(l: &mut Local, name: &str, n: i128, a: &Result<tz::DateTime, E>, b: &R
 }
 
 /// ns >= 1e9 refused wherever fields are validated
-fn check_ns_validation(l: &mut Local, ns: u32, y: i32) {
+pub fn check_ns_validation(l: &mut Local, ns: u32, y: i32) {
     let expect_ok = ns < 1_000_000_000;
     let ltt = LocalTimeType::with_ut_offset(3600).unwrap();
     // the search validates its arguments on every path: no table and no rule (UTC), a table only, a table with a
